@@ -429,9 +429,9 @@ pub fn def() -> PropDef {
         rule: "req_sequences / rep_sequences: indices 0..125 enumerate every call sequence over {send, recv} of length 1..6 on an undisturbed transport, compared call by call with the reference state machine (REQ: idle/awaiting; REP: reply legal iff a request is held); further indices repeat them under drawn segmentation and schedules; concurrent: 1..4 real/scripted REQ clients against one REP, replies attributed by tag and by connection tap; non-trivial = sequence containing an illegal call, or any REP/concurrent case; distinct = distinct (sequence, plan, schedule, transport)",
         assumptions: &["the REP partner pipelines requests so that recv never waits for a request that cannot come; REP recv while a request is held is not judged (the statement constrains replies only)"],
         strata: vec![
-            Stratum { name: "req_sequences", quick: 126 * 60, thorough: 126 * 2000, exhaustive: (true, true), run: req_sequences, what: "all 126 call sequences <= 6 on REQ (first 126 cases undisturbed), then under random transport" },
-            Stratum { name: "rep_sequences", quick: 126 * 60, thorough: 126 * 2000, exhaustive: (true, true), run: rep_sequences, what: "all 126 call sequences <= 6 on REP with two pipelining partners" },
-            Stratum { name: "concurrent", quick: 100_000, thorough: 1_500_000, exhaustive: (false, false), run: concurrent, what: "1..4 concurrent clients against one REP" },
+            Stratum { name: "req_sequences", quick: 126 * 60, thorough: (126 * 2000) * 4, exhaustive: (true, true), run: req_sequences, what: "all 126 call sequences <= 6 on REQ (first 126 cases undisturbed), then under random transport" },
+            Stratum { name: "rep_sequences", quick: 126 * 60, thorough: (126 * 2000) * 4, exhaustive: (true, true), run: rep_sequences, what: "all 126 call sequences <= 6 on REP with two pipelining partners" },
+            Stratum { name: "concurrent", quick: 100_000, thorough: (1_500_000) * 4, exhaustive: (false, false), run: concurrent, what: "1..4 concurrent clients against one REP" },
         ],
     }
 }
